@@ -27,18 +27,18 @@ Proof. exact emitted_div_helpers_no_ub. Qed.
 Print Assumptions C03_emitted_div_helpers_no_ub.
 
 (* logical shifts: every count of the count type, every C dialect (even strict ISO) *)
-Theorem C03_shl_no_ub : forall m t a b, ity_ok t -> in_ity t a -> in_ity (to_signed t) b -> h_shl m t a b <> OUB.
+Theorem C03_shl_no_ub : forall m t a b, ity_ok t -> in_ity t a -> in_ity I64 b -> h_shl m t a b <> OUB.
 Proof. exact h_shl_no_ub. Qed.
 Print Assumptions C03_shl_no_ub.
 
-Theorem C03_shr_no_ub : forall m t a b, ity_ok t -> in_ity t a -> in_ity (to_signed t) b -> h_shr m t a b <> OUB.
+Theorem C03_shr_no_ub : forall m t a b, ity_ok t -> in_ity t a -> in_ity I64 b -> h_shr m t a b <> OUB.
 Proof. exact h_shr_no_ub. Qed.
 Print Assumptions C03_shr_no_ub.
 
 (* arithmetic shift: defined in the GNU dialect; its negative-count branch `a << -b` on a signed
    value is UB under ISO rules even with -fwrapv *)
 Theorem C03_asr_no_ub_gnu : forall m t a b, m_gnushl m = true -> ity_ok t -> in_ity t a ->
-  in_ity (to_signed t) b -> h_asr m t a b <> OUB.
+  in_ity I64 b -> h_asr m t a b <> OUB.
 Proof. exact h_asr_no_ub_gnu. Qed.
 Print Assumptions C03_asr_no_ub_gnu.
 
@@ -73,28 +73,19 @@ Theorem C03_prims_agree :
 Proof. exact prims_agree. Qed.
 Print Assumptions C03_prims_agree.
 
-Theorem C03_layout_agrees_refuted : ~ layout_agrees_full.
-Proof. exact layout_agrees_refuted. Qed.
-Print Assumptions C03_layout_agrees_refuted.
-
-(* for every well-formed type tree (wfb: primitives of the table, arrays of any length including 0,
-   packed records, power-of-two user alignments on records with at least one field, unions of
-   non-zero size), nested arbitrarily: size AND alignment coincide outright - zero-size records
-   included, full strength since the repair 61ca8bb -, hence the emitted static assertion holds, and
-   every record field offset coincides *)
-Theorem C03_layout_agrees_partial : forall t, wfb t = true ->
+(* FULL STRENGTH (no `_refuted` left since /repo 61ca8bb, bac28d6, 3c0ba5f): for every type tree the analyzer
+   accepts - primitives of the table, arrays of any length including 0, packed records, records with or
+   without fields and a power-of-two user alignment (up to 65536), unions, nested arbitrarily - the
+   compiler's size AND alignment are the C compiler's, hence the emitted static assertion holds, and every
+   record field offset coincides *)
+Theorem C03_layout_agrees : forall t, wfb t = true ->
   nl t = cl t /\ static_assert_holds t = true /\
   (forall fs packed aligned, t = TRec fs packed aligned -> nl_offsets fs packed = cl_offsets fs packed).
 Proof.
   intros t H. split; [apply (layout_agree t H)|]. split; [apply static_assert_ok; exact H|].
   intros fs packed aligned ->. eapply offsets_ok; exact H.
 Qed.
-Print Assumptions C03_layout_agrees_partial.
-
-(* what is still false: an `aligned` record without fields (and, above, a zero-size union) *)
-Theorem C03_layout_agrees_refuted_aligned_empty : accepted t_witness2 = true /\ static_assert_holds t_witness2 = false.
-Proof. exact layout_agrees_refuted2. Qed.
-Print Assumptions C03_layout_agrees_refuted_aligned_empty.
+Print Assumptions C03_layout_agrees.
 
 (* ---- core 3: bytes passed to memcmp by nelua_eq_<type>, full strength ---- *)
 Theorem C03_eq_in_bounds : forall t, wfb t = true -> forall base,
